@@ -25,6 +25,8 @@ pub mod c16;
 pub mod c17;
 pub mod c18;
 pub mod c19;
+pub mod c19proc;
+pub mod c19sess;
 pub mod c20;
 pub mod pipes;
 
